@@ -110,7 +110,7 @@ def first_match_cases(rng, tier):
     tables = []
     for n in (1, 2, 3):
         allp = list(itertools.permutations(pats, n))
-        tables += allp if len(allp) <= 300 else rng.sample(allp, 150 if tier == "quick" else 1200)
+        tables += allp if len(allp) <= 300 else rng.sample(allp, min(len(allp), 150 if tier == "quick" else 1200))
     return tables, paths
 
 
